@@ -167,6 +167,12 @@ func runHubCase(seed uint64, nOps int, hostile bool, gov bool, restart bool, sta
 	env := NewEnv(EnvOpts{Params: params, Tokens: tokens, States: []*types.ExternalState{{ChainId: "minter", DelegateKeys: dk,
 		LatestBlockHeight: types.LatestBlockHeight{}}}})
 	powers := []int64{100, int64(1 + rng.Intn(40)), int64(1 + rng.Intn(10))}
+	if rng.Chance(1, 4) {
+		// an 18-decimals stake token: consensus powers beyond 2^32 (same proportions)
+		for i := range powers {
+			powers[i] <<= 33
+		}
+	}
 	for i := 0; i < nVals; i++ {
 		env.Staking.Vals = append(env.Staking.Vals, ValIn{Oper: valAddr(i), Power: powers[i], Bonded: true})
 	}
@@ -624,7 +630,11 @@ func runHubCase(seed uint64, nOps int, hostile bool, gov bool, restart bool, sta
 			if len(tokens) > 0 {
 				denom = tokens[rng.Intn(len(tokens))].Denom
 			}
-			do(&HubOp{Kind: 3, Sender: userAddr(0).String(), Chain: ch, Denom: denom})
+			if rng.Chance(1, 5) {
+				do(&HubOp{Kind: 11, Sender: userAddr(0).String(), Chain: ch, Denom: denom})
+			} else {
+				do(&HubOp{Kind: 3, Sender: userAddr(0).String(), Chain: ch, Denom: denom})
+			}
 		case c < 94: // batch executed
 			ch := extChains[rng.Intn(3)]
 			if directed && rng.Chance(4, 5) {
